@@ -43,7 +43,6 @@ func checkC19(c *Ctx) {
 	}
 	weighted := weightedObj.Type().Underlying().(*types.Interface)
 	netT := c.P.NamedType("route", "Network")
-	var heuristics []*types.Func
 	nAStar := 0
 	for _, fn := range c.P.RepoFuncs() {
 		if c.P.DeclPkg(fn) != p {
@@ -76,16 +75,8 @@ func checkC19(c *Ctx) {
 				}
 				c.Bad("C19.R1", cons, call.Pos(), "the graph argument `%s` of type %s does not implement gonum's path.Weighted%s, so AStar uses UniformCost: every link costs 1 and the route minimises the number of links, not distance or time", src(call.Args[2]), typeName(gt), near)
 			}
-			// heuristic: method value X.m
-			if sel, ok := unparen(call.Args[3]).(*ast.SelectorExpr); ok {
-				if s := info.Selections[sel]; s != nil {
-					if m, ok := s.Obj().(*types.Func); ok {
-						heuristics = append(heuristics, m)
-					}
-				}
-			} else if !isNilConst(info, call.Args[3]) {
-				c.Unk("C19.R2", c.P.FuncName(fn)+"#heuristic", call.Pos(), "heuristic `%s` is not a method value", src(call.Args[3]))
-			}
+			// (the heuristic handed to the search — a method value, a closure, the result of a factory —
+			// is evaluated by the model, whatever form it has: C19.R2)
 			return true
 		})
 	}
